@@ -63,6 +63,12 @@ Definition ev_of_V (v : V) : ev :=
   match as_int (vnth v 0) with
   | 0 => ESend (as_bytes (vnth v 1)) (retry_of_Z (as_int (vnth v 2))) (icb_of_Z (as_int (vnth v 3)))
   | 1 => EClientTick (as_int (vnth v 1))
+           (let r := vnth v 2 in
+            match as_int (vnth r 0) with
+            | 0 => RxNone
+            | 1 => RxBadHeader (err_of_code (as_int (vnth r 1)))
+            | _ => RxDgram (dgram_of_V (vnth r 1)) (map oracle_of_V (as_list (vnth r 2)))
+            end)
   | 2 => EServerTick (as_int (vnth v 1))
   | 3 => ERecv (as_int (vnth v 1)) (dgram_of_V (vnth v 2)) (map oracle_of_V (as_list (vnth v 3)))
   | 4 => EDisconnect (icb_of_Z (as_int (vnth v 1)))
